@@ -960,6 +960,11 @@ func (np negProp) oneConn(client *xmpp.Client, cfg *xmpp.Config, xt *xmpp.XMPPTr
 				done <- res{fmt.Errorf("panic: %v", r)}
 			}
 		}()
+		if m["via"] == "resume" {
+			// through the public entry point: Client.Resume (connect, post-resume hook, keepalive and receiver)
+			done <- res{client.Resume()}
+			return
+		}
 		done <- res{xmpp.VerifClientConnect(client)}
 	}()
 	var out string
